@@ -1,6 +1,18 @@
-(* C05: the computable premise of the history-level lifecycle theorem (Proof/PLife*.v): run_lcb cb g ops is evaluated
-   along cp_run, like PSafeRun.run_okb. It excludes the situations of the known findings of known_findings.d/C05.json
-   and the status overwrites of C09 (close / the other direction's parser reviving a stream that is in STOP / ERROR). *)
+(* C05: the computable premise of the history-level lifecycle theorem
+     Proof/PLifeRun.lc_run_accepted : run_lcb cb g connp_new ops = true -> chk_C05 (obs_run cb g connp_new ops) = true
+   (every callback oracle, configuration, operation list). run_lcb is evaluated along cp_run, like PSafeRun.run_okb:
+   a conjunction of per-operation conditions (lc_op), the response-side ones through a twin of MRes.rs_res_loop
+   (lc_res_loop) that checks a guard before / after every response state function. Clauses:
+     P1  OpClose / OpReqClose is not applied to a direction whose status is STOP (htp_connp_close overwrites STOP and the
+         parser resumes in the middle of a refused callback: known finding 2 and its variants);
+     G4 / G6  a data call of one direction does not turn the status of the OTHER direction from STOP / ERROR into a live
+         value (rs_unblock_request on a 101 / refused CONNECT, tunnel set-up in REQ_CONNECT_PROBE_DATA);
+     G1  RES_IDLE is dispatched with a byte only when conn->transactions[out_next_tx_index] exists: no "unable to match
+         response to request" placeholder (known findings 2 and 4);
+     G3  RES_LINE is not dispatched when response_content_encoding_processing of out_tx is already NONE, i.e. after a
+         line of this response has been delivered as body data (known finding 3);
+     G5  no response state function returns with the fault flag set (a callback destroyed out_tx while the header-data
+         receiver was still armed: the receiver callback is then logged for a NULL transaction). *)
 Require Import Htp.Model.MConnTypes Htp.Model.MTxCommon Htp.Model.MTxRes Htp.Model.MReq Htp.Model.MRes Htp.Model.MConnp.
 Local Open Scope Z_scope.
 
